@@ -83,7 +83,7 @@ def typedef_text(td, extra_derives=("Debug", "Clone")):
     elif td.entry.startswith("attr_split") and len(td.derived) > 1:
         # the list split over stacked attributes (first trait alone, the rest in a sibling written bare / with the crate path / with `::`):
         # one request, the helper attributes are shared
-        sib = {"attr_split": "derive_ex::derive_ex", "attr_split_colon": "::derive_ex::derive_ex", "attr_split_last": "derive_ex::derive_ex"}[td.entry]
+        sib = {"attr_split": "derive_ex::derive_ex", "attr_split_colon": "::derive_ex::derive_ex", "attr_split_last": "derive_ex::derive_ex", "attr_split_bare": "derive_ex"}[td.entry]
         a, b = (td.derived[:1], td.derived[1:]) if td.entry != "attr_split_last" else (td.derived[:-1], td.derived[-1:])
         head = "#[derive_ex::derive_ex(%s)]\n#[%s(%s)]\n#[derive(%s)]\n" % (", ".join(a), sib, ", ".join(b), std)
     elif td.entry.startswith("attr_split"):
@@ -124,10 +124,11 @@ SHADOW = ("pub mod shadow { " + " ".join("pub struct %s;" % n for n in ["Option"
 
 def wrap(td, text):
     if not td.hostile:
-        return text
+        # the derive_ex item lives in a module of its own where the by-value decoy trait is in scope (generated method-syntax calls would land there)
+        return "pub mod def {\n#[allow(unused_imports)] use super::*;\n#[allow(unused_imports)] use crate::support::hijack::HijackAll as _;\n%s}\npub use def::%s;\n" % (text, td.tname)
     body = "".join(l + " " for l in text.split("\n") if l.strip())
     # one paragraph: the derive_ex item under a prelude-shadowing glob import; key/by functions and field types come from support
-    return ("pub mod def { #[allow(unused_imports)] use super::shadow::*; use crate::support::{%s}; #[allow(unused_macros)] macro_rules! unreachable { (never) => {} }\n%s\n}\n\n%spub use def::%s as %s;\n" % (
+    return ("pub mod def { #[allow(unused_imports)] use super::shadow::*; #[allow(unused_imports)] use crate::support::hijack::HijackAll as _; use crate::support::{%s}; #[allow(unused_macros)] macro_rules! unreachable { (never) => {} }\n%s\n}\n\n%spub use def::%s as %s;\n" % (
         ", ".join(["P", "W", "Kb"] + ["k_" + a for a in R.OPS] + ["by_" + a for a in R.OPS] + ["ck", "ck_cmp", "ck_pcmp", "ck_pcmp_p", "ck_eq", "ck_hash"]), body, SHADOW, td.hostile.get("type", td.tname), td.tname))
 
 
@@ -476,7 +477,7 @@ def random_typedef(rng, derived, entry=None, keys="distinct", max_fields=4, allo
         vs = [Variant("X", kind, mkfields(kind))]
     if generic and not any("u8" in f.ty for v in vs for f in v.fields):
         generic = False
-    return TypeDef(is_enum, vs, list(derived), entry or rng.choice(["attr", "derive"]), generic, keys)
+    return TypeDef(is_enum, vs, list(derived), entry or rng.choice(["attr", "derive", "attr", "derive", "attr", "derive", "attr_split", "attr_split_colon", "attr_split_last", "attr_split_bare"]), generic, keys)
 
 
 def single_field_typedef(combo, derived, placement="named", entry="attr", keys="consistent", ty="u8"):
